@@ -727,7 +727,7 @@ def _parse_inline_fragment(
     )
 
     validators.ctx.setdefault("inlined_in", {}).setdefault(
-        validators.ctx["parent_type_name"], []
+        parent_type_name, []
     ).append(inline_frag)
     validators.ctx["parent_type_name"] = parent_type_name
 
